@@ -571,17 +571,39 @@ def check_cg_property(ctx, torch, CG):
 
 # ------------------------------------------------------------------------------------------------
 # direct solvers: the oracle contracts, measured
-def mat_family(torch, rng, gen, m, n, fam):
+SCALE_EXPS = [-40, -27, -13, 0, 0, 0, 13, 27, 40]
+
+
+def item_scales(rng, nb):
+    """power-of-two exponents e_t, one per batch item: item t is multiplied by 2^e_t (exact in floating
+    point, so the construction of the item stays exact).  A solver treats the items of a batch as
+    independent problems: nothing in the answer for one item may depend on the magnitude (or rank, or
+    conditioning) of its neighbours.  Modes: all items on one scale, independent scales 2^-40 .. 2^40
+    (ratios up to 1e24), one item far above / below the others."""
+    if nb == 1:
+        return [rng.choice(SCALE_EXPS)]
+    mode = rng.choice(['same', 'independent', 'independent', 'one-large', 'one-small'])
+    if mode == 'same':
+        return [rng.choice(SCALE_EXPS)] * nb
+    if mode == 'independent':
+        return [rng.choice(SCALE_EXPS) for _ in range(nb)]
+    es = [rng.choice([-3, 0, 0, 3]) for _ in range(nb)]
+    es[rng.randrange(nb)] = rng.randint(45, 60) * (1 if mode == 'one-large' else -1)
+    return es
+
+
+def mat_family(torch, rng, gen, m, n, fam, e=0):
     """returns (A, info dict).  Families: 'full' (random, cond ~ kappa), 'rankdef' (exact integer product
-    of rank r, scaled by powers of two), 'spd', 'indefinite', 'singular-psd'."""
+    of rank r, scaled by powers of two), 'spd', 'indefinite', 'singular-psd'.  e: the matrix is scaled
+    by 2^e (through its construction: singular values / the left factor / the eigenvalues)."""
     T = torch
     if fam == 'full':
         kappa = 10.0 ** rng.choice([0, 2, 4, 6, 8])
         r = min(m, n)
         U = rand_orth(T, m, gen)[:, :r]
         V = rand_orth(T, n, gen)[:, :r]
-        s = T.tensor([kappa ** (-k / max(r - 1, 1)) for k in range(r)], dtype=T.float64)
-        return (U * s) @ V.T, dict(kappa=kappa, rank=r, U=U, s=s, V=V)
+        s = T.tensor([kappa ** (-k / max(r - 1, 1)) for k in range(r)], dtype=T.float64) * 2.0 ** e
+        return (U * s) @ V.T, dict(kappa=kappa, rank=r, U=U, s=s, V=V, fam=fam)
     if fam == 'rankdef':
         r = rng.randint(1, max(1, min(m, n, 6) - (1 if min(m, n) > 1 else 0)))
         while True:
@@ -590,15 +612,15 @@ def mat_family(torch, rng, gen, m, n, fam):
             if T.linalg.matrix_rank(B) == r and T.linalg.matrix_rank(C) == r:
                 break
         sc = rng.choice([0, 0, 4, 8])
-        d1 = T.tensor([2.0 ** rng.randint(-sc, sc) for _ in range(m)], dtype=T.float64)
+        d1 = T.tensor([2.0 ** (rng.randint(-sc, sc) + e) for _ in range(m)], dtype=T.float64)
         d2 = T.tensor([2.0 ** rng.randint(-sc // 2, sc // 2) for _ in range(n)], dtype=T.float64)
         A = (d1[:, None] * B) @ (C * d2[None, :])
         sv = T.linalg.svdvals(A)
-        return A, dict(kappa=float(sv[0] / sv[r - 1]), rank=r, B=(d1[:, None] * B), C=(C * d2[None, :]))
+        return A, dict(kappa=float(sv[0] / sv[r - 1]), rank=r, B=(d1[:, None] * B), C=(C * d2[None, :]), fam=fam)
     if fam == 'spd':
         kappa = 10.0 ** rng.choice([0, 2, 4, 6, 8])
         Q = rand_orth(T, n, gen)
-        lam = T.tensor([kappa ** (-k / max(n - 1, 1)) for k in range(n)], dtype=T.float64)
+        lam = T.tensor([kappa ** (-k / max(n - 1, 1)) for k in range(n)], dtype=T.float64) * 2.0 ** e
         A = (Q * lam) @ Q.T
         return (A + A.T) / 2, dict(kappa=kappa, rank=n)
     if fam == 'indefinite':
@@ -651,8 +673,8 @@ def ls_reference(T, c, t, b):
     'full': A = U diag(s) V^T with orthonormal U, V: min residual |(I - U U^T) b|, x* = V diag(1/s) U^T b;
     'rankdef': A = B C exactly (integer factors scaled by powers of two, B of full column rank, C of full
     row rank): range(A) = range(B); the normal equations of B and the minimum-norm preimage under C are
-    solved exactly over the rationals.  Returns (list of k residual norms, x* as n x k float64 tensor)."""
-    if c.get('U') is not None:
+    solved exactly over the rationals.  The items of one batch may be of either kind (family 'mixed').  Returns (list of k residual norms, x* as n x k float64 tensor)."""
+    if c.get('U') is not None and c['U'][t] is not None:
         U = T.tensor(c['U'][t], dtype=T.float64)
         V = T.tensor(c['V'][t], dtype=T.float64)
         s = T.tensor(c['s'][t], dtype=T.float64)
@@ -734,9 +756,10 @@ def ls_property(T, solver, c, ref=None):
     A, baseA = relayout(T, A64.to(dt), c.get('layout'))
     b, baseb = relayout(T, b64.to(dt), c.get('layout'))
     snap = [A.clone(), b.clone(), None if baseA is None else baseA.clone(), None if baseb is None else baseb.clone()]
-    how = '%s(%s%s)(A, b) [A %dx%d %s, batch %s, k=%d, family %s, layout %s, default dtype %s, after %d other solves]' % (
+    how = '%s(%s%s)(A, b) [A %dx%d %s, batch %s, k=%d, family %s%s, layout %s, default dtype %s, after %d other solves]' % (
         c['solver'], 'rtol=%s' % c['tolcut'] if c['solver'] == 'PINV' else 'rcond=%s' % c['tolcut'],
         '' if c['solver'] == 'PINV' else ', driver=%s' % c.get('driver'), m, n, str(dt)[6:], batch, k, c['fam'],
+        '' if not c.get('scales') else ', items scaled by 2^%s' % c['scales'],
         c.get('layout') or 'contiguous', c.get('defdtype') or 'unchanged', len(c.get('history') or []))
     try:
         x = ls_call(T, solver, c, A, b)
@@ -750,13 +773,14 @@ def ls_property(T, solver, c, ref=None):
         return '%s returned a non-finite solution' % how, {}
     Af, bf, xf = A.double().reshape(-1, m, n), b.double().reshape(-1, m, k), x.double().reshape(-1, n, k)
     ratios, why = {}, None
-    unique = (c['fam'] == 'full' and m >= n)
+    per = lambda key, t: None if c.get(key) is None else c[key][t]     # per-item part of the construction (or None)
     for t in range(Af.shape[0]):
         a, kp = Af[t], c['kappas'][t]
+        unique = (per('U', t) is not None and m >= n)                   # full column rank: one least-squares solution
         na = nrm(a)
         scale = 1e3 * max(m, n) * eps
         # (a) residual against the construction
-        if c.get('U') is not None or c.get('B') is not None:
+        if per('U', t) is not None or per('B', t) is not None:
             if ref is None:
                 ref = ls_refs(T, c)
             rmin, xs = ref[t]
@@ -785,7 +809,7 @@ def ls_property(T, solver, c, ref=None):
         if not r <= 1.0 and why is None:
             why = ('%s (cond %.1e) returned x with |A^T (A x - b)| = %.3e, allowed %.3e: not a least-squares solution' % (how, kp, nrm(g), lim))
         # (c) null-space component (rank-deficient family)
-        if c.get('C') is not None and not c.get('lsonly'):
+        if per('C', t) is not None and not c.get('lsonly'):
             C = T.tensor(c['C'][t], dtype=T.float64)
             proj = xf[t] - C.T @ T.linalg.solve(C @ C.T, C @ xf[t])
             lim = scale * kp * kp * nrm(xf[t]) + 1e-300
@@ -797,14 +821,16 @@ def ls_property(T, solver, c, ref=None):
     return why, ratios
 
 
-def ls_base(fam, m, n, batch, k, infos, A, b):
-    """the replayable description of one generated least-squares problem (with the construction of A)"""
+def ls_base(fam, m, n, batch, k, infos, A, b, scales=None):
+    """the replayable description of one generated least-squares problem (with the construction of A, item by
+    item: orthonormal factors and singular values, or an exact rank factorisation)"""
     c = dict(kind='ls', fam=fam, m=m, n=n, batch=batch, k=k, kappas=[i['kappa'] for i in infos], A=A.tolist(), b=b.tolist(),
-             C=None, B=None, U=None, s=None, V=None, dtype='float64')
-    if fam == 'rankdef':
-        c.update(C=[i['C'].tolist() for i in infos], B=[i['B'].tolist() for i in infos])
-    else:
-        c.update(U=[i['U'].tolist() for i in infos], s=[i['s'].tolist() for i in infos], V=[i['V'].tolist() for i in infos])
+             C=None, B=None, U=None, s=None, V=None, dtype='float64', scales=scales, fams=[i['fam'] for i in infos])
+    part = lambda key: [i[key].tolist() if key in i else None for i in infos]
+    if any('C' in i for i in infos):
+        c.update(C=part('C'), B=part('B'))
+    if any('U' in i for i in infos):
+        c.update(U=part('U'), s=part('s'), V=part('V'))
     return c
 
 
@@ -852,24 +878,38 @@ def check_direct(ctx, torch, solver, files, tables):
     refs = {}
     # ---- PINV / LSTSQ
     for n0 in [v for v in sizes for _ in range(3)]:
-        for fam in ('full', 'rankdef'):
-            for shape in ('square', 'tall', 'wide'):
+        # 'mixed': a batch whose items are of different kinds (full rank with any conditioning next to exactly
+        # rank-deficient ones); in every family the items of a batch are put on scales that differ by up to
+        # 2^80 (item_scales): each item is judged against its own construction, so an answer for one item that
+        # depends on its neighbours (a cut-off, a norm, a rank taken over the whole batch) is an O(1) excess
+        for fam in ('full', 'rankdef', 'mixed'):
+            for shape in (('square', 'tall', 'wide') if fam != 'mixed' else (rng.choice(['square', 'tall', 'wide']),)):
                 m, n = (n0, n0) if shape == 'square' else ((n0, rng.randint(1, n0)) if shape == 'tall' else (rng.randint(1, n0), n0))
-                batch = rng.choice([(), (), (2,), (2, 3)])
+                batch = rng.choice([(), (), (2,), (2, 3)] if fam != 'mixed' else [(2,), (3,), (2, 3), (4, 1)])
                 nb = 1
                 for d in batch:
                     nb *= d
-                mats, infos = zip(*[mat_family(T, rng, gen, m, n, fam) for _ in range(nb)])
+                fams = [fam] * nb
+                if fam == 'mixed':
+                    fams = [rng.choice(['full', 'rankdef']) for _ in range(nb)]
+                    fams[0], fams[-1] = rng.sample(['full', 'rankdef'], 2)
+                scales = item_scales(rng, nb)
+                mats, infos = zip(*[mat_family(T, rng, gen, m, n, fams[t], scales[t]) for t in range(nb)])
                 A = T.stack(mats).reshape(batch + (m, n))
                 k = rng.choice([1, 1, 3])
                 consistent = rng.random() < 0.4
                 b = T.randn(batch + (m, k), generator=gen, dtype=T.float64)
                 if consistent:
                     b = A @ T.randn(batch + (n, k), generator=gen, dtype=T.float64)
+                elif rng.random() < 0.5:
+                    # right-hand sides of the magnitude of their matrices
+                    b = (b.reshape(nb, m, k) * T.tensor([2.0 ** e for e in scales], dtype=T.float64)[:, None, None]).reshape(batch + (m, k))
                 kap = max(i['kappa'] for i in infos)
                 cdesc = dict(kind='direct', solver='PINV/LSTSQ', fam=fam, m=m, n=n, batch=batch, k=k, kappa=kap)
                 ctx.case(('direct', fam, m, n, batch, k, float(A.sum())), nontrivial=True, branch='direct:%s-%s' % (fam, shape))
                 ctx.count('direct-cond:%s' % ('<=1e2' if kap <= 1e2 else '<=1e5' if kap <= 1e5 else '<=1e8+'))
+                spread = max(scales) - min(scales)
+                ctx.count('direct-batch-scale-spread:%s' % ('single item' if nb == 1 else '1' if spread == 0 else '<=2^30' if spread <= 30 else '<=2^53' if spread <= 53 else '>2^53'))
                 rtol_p = None if fam == 'full' else 1e-11
                 P = T.linalg.pinv(A, rtol=rtol_p)
                 # --- wrapper tie: PINV is exactly pinv(A) @ b
@@ -878,7 +918,7 @@ def check_direct(ctx, torch, solver, files, tables):
                     with default_dtype(T, tie_dd):
                         xp = solver.PINV(rtol=rtol_p)(A, b)
                     if not T.equal(xp, P @ b):
-                        ctx.mismatch('wrapper:PINV', dict(ls_base(fam, m, n, batch, k, infos, A, b), solver='PINV', tolcut=rtol_p,
+                        ctx.mismatch('wrapper:PINV', dict(ls_base(fam, m, n, batch, k, infos, A, b, scales), solver='PINV', tolcut=rtol_p,
                                                           what='PINV(A,b) is not pinv(A) @ b'))
                 except Exception as e:  # noqa
                     ctx.violation('PINV.forward:raises', 'PINV raised %s: %s on a finite %dx%d matrix' % (type(e).__name__, str(e)[:120], m, n),
@@ -899,7 +939,7 @@ def check_direct(ctx, torch, solver, files, tables):
                 wmeta.append(dict(cdesc, wrapper='LSTSQ'))
                 if xl is not None and not T.equal(xl, sol):
                     # replayable: the search phase judges this very call by the property's statement
-                    ctx.mismatch('wrapper:LSTSQ', dict(ls_base(fam, m, n, batch, k, infos, A, b), solver='LSTSQ', tolcut=None if fam == 'full' else 1e-11,
+                    ctx.mismatch('wrapper:LSTSQ', dict(ls_base(fam, m, n, batch, k, infos, A, b, scales), solver='LSTSQ', tolcut=None if fam == 'full' else 1e-11,
                                                        what='LSTSQ(A,b) is not lstsq(A,b).solution'))
                 # --- contracts of the pinv oracle (per batch item)
                 Af, Pf = A.reshape(nb, m, n), P.reshape(nb, n, m)
@@ -914,7 +954,7 @@ def check_direct(ctx, torch, solver, files, tables):
                 # --- the property itself on the wrappers' return values (least squares, minimum norm), for every
                 # call form: both process default dtypes, every LSTSQ driver, default and explicit cut-off,
                 # memory layouts, a solver object that has solved other systems before
-                for c in ls_variants(rng, ls_base(fam, m, n, batch, k, infos, A, b), ctx.thorough):
+                for c in ls_variants(rng, ls_base(fam, m, n, batch, k, infos, A, b, scales), ctx.thorough):
                     if c.get('dtype') == 'float32' and kap > 1e3:
                         continue
                     refs.setdefault(c.get('dtype') or 'float64', None)
@@ -943,17 +983,19 @@ def check_direct(ctx, torch, solver, files, tables):
             nb = 1
             for d in batch:
                 nb *= d
-            mats, infos = zip(*[mat_family(T, rng, gen, n0, n0, fam) for _ in range(nb)])
+            scales = item_scales(rng, nb)                  # SPD members of one batch on very different scales
+            mats, infos = zip(*[mat_family(T, rng, gen, n0, n0, fam, scales[t]) for t in range(nb)])
             if fam != 'spd' and nb > 1 and rng.random() < 0.5:
                 # only one member of the batch is bad
                 mats = list(mats)
                 for t in range(1, nb):
-                    mats[t] = mat_family(T, rng, gen, n0, n0, 'spd')[0]
+                    mats[t] = mat_family(T, rng, gen, n0, n0, 'spd', scales[t])[0]
             A = T.stack(list(mats)).reshape(batch + (n0, n0))
             k = rng.choice([1, 1, 2])
             b = T.randn(batch + (n0, k), generator=gen, dtype=T.float64)
             upper = rng.random() < 0.3
-            cdesc = dict(kind='cholesky', fam=fam, n=n0, batch=batch, k=k, upper=upper, A=A.tolist(), b=b.tolist(), defdtype=rng.choice(['float32', 'float64']))
+            cdesc = dict(kind='cholesky', fam=fam, n=n0, batch=batch, k=k, upper=upper, A=A.tolist(), b=b.tolist(), defdtype=rng.choice(['float32', 'float64']),
+                         scales=scales)
             ctx.case(('chol', fam, n0, batch, upper, float(A.sum())), nontrivial=True, branch='cholesky:' + fam)
             L, info = T.linalg.cholesky_ex(A, upper=upper)
             try:
@@ -1114,9 +1156,15 @@ def replay(ctx, c):
         if c['fam'] == 'spd':
             if x.dtype != torch.float64 or x.shape != b.shape:
                 return 'Cholesky returned %s of shape %s for float64 A, b of shape %s (process default dtype %s)' % (x.dtype, tuple(x.shape), tuple(b.shape), c.get('defdtype'))
-            r = float((A @ x - b).norm())
-            lim = 1e3 * c['n'] * EPS * float(A.norm() * x.norm() + b.norm())
-            return None if r <= lim else 'Cholesky(upper=%s) returned x with |A x - b| = %.3e (allowed %.3e) for SPD A (n=%d)' % (c.get('upper', False), r, lim, c['n'])
+            # item by item: the members of a batch are independent systems (their scales may differ by 2^80)
+            n = c['n']
+            for t, (a, xt, bt) in enumerate(zip(A.reshape(-1, n, n), x.reshape(-1, n, x.shape[-1]), b.reshape(-1, n, b.shape[-1]))):
+                r = float((a @ xt - bt).norm())
+                lim = 1e3 * n * EPS * float(a.norm() * xt.norm() + bt.norm())
+                if not r <= lim:
+                    return ('Cholesky(upper=%s) returned x with |A x - b| = %.3e (allowed %.3e) for item %d of SPD A (n=%d, batch %s%s)'
+                            % (c.get('upper', False), r, lim, t, n, tuple(c.get('batch', ())), '' if not c.get('scales') else ', items scaled by 2^%s' % c['scales']))
+            return None
         ev = torch.linalg.eigvalsh(A).reshape(-1, c['n'])[:, 0].min()
         xs = x.reshape(-1).tolist()
         return ('Cholesky(upper=%s)(A, b) returned %s instead of raising; A (n=%d, batch %s, %s) is not positive definite: smallest eigenvalue %.3g'
